@@ -244,7 +244,15 @@ fn random_prop(model: &Model, tape: &[u32], st: &mut Stats) -> Result<(), String
 /// The ErrorQueue trait driven directly.
 fn direct<const Q: usize>(ops: &[usize]) -> Result<bool, String> {
     let errs = [Error::UndefinedHeader, Error::Custom(-1234, "x\"y"), Error::DataTypeError];
-    let texts = [(-113i16, "Undefined header"), (-1234, "x\"y"), (-104, "Data type error")];
+    // number and description of each value as the library defines them (only the overflow entry's
+    // text comes from the model)
+    let texts: Vec<(i16, String)> = errs
+        .iter()
+        .map(|e| {
+            let t: &str = (*e).into();
+            (e.number(), t.to_string())
+        })
+        .collect();
     let mut q: StaticErrorQueue<Q> = StaticErrorQueue::new();
     let mut m = QueueModel::new(Q);
     let mut overflow = false;
@@ -255,7 +263,7 @@ fn direct<const Q: usize>(ops: &[usize]) -> Result<bool, String> {
                     overflow = true;
                 }
                 q.push_error(errs[*op]);
-                m.push(texts[*op].0, texts[*op].1);
+                m.push(texts[*op].0, &texts[*op].1);
             }
             3 => {
                 let got = q.pop_error().map(|e| {
